@@ -3,7 +3,8 @@
 Correspondence: the real `edit_distance` / `prefix_edit_distances` (functional and module
 entry points, both layouts) are run on whole batches; the Lean driver runs the per-column
 model of `_string_matching` (Model/StringMatch.lean) on every column with the shared padded
-sizes and evaluates the oracle `lev` on the cut sequences. All inputs are float32-exact
+sizes, the tensor-level model (Model/StringMatchBatch.lean) on the whole batch in the layout
+of the call, and evaluates the oracle `lev` on the cut sequences. All inputs are float32-exact
 (dyadic costs, small sizes), so un-normalised results are compared as equal rationals and
 normalised ones against the correctly rounded float32 quotient.
 
@@ -13,6 +14,14 @@ A case is one batch, stored column-wise:
    "include_eos", "norm", "batch_first", "exclude_last": bool, "padding": int,
    "ins", "del", "sub": "n/d"}
 or a malformed call {"kind": "malformed", "what": ...} (documented error class only).
+
+Optional keys (how the SAME batch is handed to the library; absent = the plain form):
+  "warn": bool, "call"/"ctor": "positional"|"keyword"|"minimal"|"mixed" (functional call / module
+  constructor: all positional, all keywords in another order, documented defaults omitted, a mix),
+  "cost_type": "float"|"int"|"numpy", "tok_dtype": [ref dtype, hyp dtype],
+  "layout": [ref layout, hyp layout] from "contig"|"tview"|"strided"|"expand",
+  "alias": bool (hyp IS the ref tensor), "default_dtype": "float64"|None.
+None of these may change a single reported number; the model never sees them.
 """
 import itertools
 import warnings
@@ -21,6 +30,18 @@ from fractions import Fraction
 from common.framework import PropertyCheck, frac_str
 
 COSTS = ["1/4", "1/2", "1", "3/2", "2", "3", "4"]
+COST_SCALES = [-100, -20, 20, 40, 100]
+# the 2-D malformed calls (batch sizes differ): shapes of (ref, hyp) as handed to the library
+MALFORMED_2D = {"batch_mismatch": ([3, 2], [3, 3]), "batch_mismatch_bf": ([2, 3], [3, 3]),
+                "batch_mismatch_empty": ([0, 2], [0, 3])}
+STYLES = ["positional", "keyword", "minimal", "mixed"]
+PADDINGS = [-100, -100, -1, 0, 1, 7, -2 ** 24, 2 ** 31 + 5]
+# token values for relabelling: around the places where a narrower or a floating representation
+# would merge neighbours (2^24 float32, 2^53 float64, int32 / int64 limits), the library's own
+# INDEX_PAD_VALUE (-100), zero and negatives
+TOKEN_POOL = [0, 1, -1, 2, -2, 7, -100, -99, 255, 256, -32768, 32767, 2 ** 24, 2 ** 24 + 1, 2 ** 31 - 1,
+              -2 ** 31, 2 ** 31, 2 ** 53, 2 ** 53 + 1, 2 ** 63 - 1, 2 ** 63 - 2, -2 ** 63, -2 ** 63 + 1]
+TOKEN_BASES = [2 ** 24 - 1, 2 ** 31 - 2, 2 ** 53 - 1, -2 ** 63, -2 ** 31 - 1, -101, -1, 250, 2 ** 62]
 SIG_LENS = "C01.lens_from_eos.empty_dim"
 SIG_EXCL = "C01.prefix.exclude_last_empty_hyp"
 
@@ -65,46 +86,204 @@ def n_rows(case):
     return case["H"] + (0 if case["exclude_last"] else 1)
 
 
-def call_impl(case, ref_cols, hyp_cols, R, H):
+# ------------------------------------------------------------------ how a batch is handed over
+# Signatures as documented at the pinned tree (names, order, defaults). A call style that omits
+# an argument relies on the default written here, so a changed default / reordered parameter in
+# the library shows up as a wrong number.
+ORDER = {
+    "scalar": ["eos", "include_eos", "norm", "batch_first", "ins_cost", "del_cost", "sub_cost", "warn"],
+    "prefix": ["eos", "include_eos", "norm", "batch_first", "ins_cost", "del_cost", "sub_cost", "padding",
+               "exclude_last", "warn"],
+}
+DOC_DEFAULTS = {
+    "scalar": {"eos": None, "include_eos": False, "norm": False, "batch_first": False, "ins_cost": 1.0,
+               "del_cost": 1.0, "sub_cost": 1.0, "warn": True},
+    "prefix": {"eos": None, "include_eos": True, "norm": False, "batch_first": False, "ins_cost": 1.0,
+               "del_cost": 1.0, "sub_cost": 1.0, "padding": -100, "exclude_last": False, "warn": True},
+}
+DTYPE_RANGE = {"int64": (-2 ** 63, 2 ** 63 - 1), "int32": (-2 ** 31, 2 ** 31 - 1),
+               "int16": (-2 ** 15, 2 ** 15 - 1), "int8": (-128, 127), "uint8": (0, 255)}
+WARN_KINDS = (("in ref did not", "no_eos_ref"), ("in hyp did not", "no_eos_hyp"),
+              ("ref contains empty transcripts", "empty_ref"))
+
+
+def _is_default(v, d):
+    if d is None or v is None or isinstance(d, bool) or isinstance(v, bool):
+        return v is d
+    return type(v) in (int, float) and v == d
+
+
+def split_args(values, order, defaults, style):
+    """(positional list, keyword dict) for one call style."""
+    if style == "keyword":
+        return [], {k: values[k] for k in reversed(order)}
+    if style == "minimal":
+        return [], {k: values[k] for k in order if not _is_default(values[k], defaults[k])}
+    if style == "mixed":
+        return ([values[k] for k in order[:3]],
+                {k: values[k] for k in reversed(order[3:]) if not _is_default(values[k], defaults[k])})
+    return [values[k] for k in order], {}
+
+
+def option_values(case):
+    import numpy as np
+    costs = [Fraction(case[k]) for k in ("ins", "del", "sub")]
+    ct = case.get("cost_type", "float")
+    if ct == "int" and all(c.denominator == 1 and c < 2 ** 31 for c in costs):
+        cv = [int(c) for c in costs]
+    elif ct == "numpy" and case["entry"] == "module":
+        cv = [np.float32(float(costs[0])), np.float64(float(costs[1])), float(costs[2])]
+    else:
+        cv = [float(c) for c in costs]
+    eos = case["eos"]
+    if ct == "numpy" and case["entry"] == "module" and eos is not None:
+        eos = np.int64(eos)
+    v = {"eos": eos, "include_eos": case["include_eos"], "norm": case["norm"],
+         "batch_first": case["batch_first"], "ins_cost": cv[0], "del_cost": cv[1], "sub_cost": cv[2],
+         "warn": case.get("warn", False)}
+    if case["mode"] == "prefix":
+        v["padding"] = case["padding"]
+        v["exclude_last"] = case["exclude_last"]
+    return v
+
+
+def garbage_tokens(case):
+    toks = sorted({x for c in case["ref"] + case["hyp"] for x in c} | ({case["eos"]} if case["eos"] is not None else set()))
+    return toks or [0]
+
+
+def make_tensor(cols, L, bf, dtype_name, layout, garbage):
+    """The logical N x L batch as a tensor of shape (N, L) / (L, N) in the requested memory layout.
+    Returns (tensor handed to the library, backing storage tensor that must stay untouched)."""
+    import torch
+    dtype = getattr(torch, dtype_name)
+    N = len(cols)
+    m = torch.tensor(cols, dtype=dtype).reshape(N, L)
+    t = m if bf else m.t()
+    if layout == "expand" and N >= 1 and all(c == cols[0] for c in cols):
+        col = torch.tensor(cols[0], dtype=dtype).reshape(L)
+        base = col
+        view = col.unsqueeze(0).expand(N, L) if bf else col.unsqueeze(1).expand(L, N)
+        return view, base
+    if layout == "tview":
+        base = t.t().contiguous()
+        return base.t(), base
+    if layout == "strided":
+        S0, S1 = t.shape
+        g = torch.tensor(garbage, dtype=dtype)
+        n_el = (2 * S0 + 1) * (2 * S1 + 3)
+        base = g[torch.arange(n_el) % len(garbage)].reshape(2 * S0 + 1, 2 * S1 + 3).clone()
+        view = base[1::2, 2::2][:S0, :S1]
+        view.copy_(t)
+        return view, base
+    base = t.contiguous()
+    return base, base
+
+
+class _DefaultDtype:
+    def __init__(self, name):
+        self.name = name
+
+    def __enter__(self):
+        import torch
+        self.old = torch.get_default_dtype()
+        if self.name:
+            torch.set_default_dtype(getattr(torch, self.name))
+
+    def __exit__(self, *a):
+        import torch
+        torch.set_default_dtype(self.old)
+
+
+def call_impl(case, ref_cols, hyp_cols, R, H, light=False):
     """Run the real code on the given columns; return the result in column-major canonical
-    form: scalar -> [v_n], prefix -> [[v_{k,n} for k] for n] plus the raw shape."""
+    form: scalar -> [v_n], prefix -> [[v_{k,n} for k] for n] plus the raw shape. Unless `light`,
+    also: the library warnings raised, whether the inputs were written to, module attributes,
+    and (module entry) the result of a second call on the same object."""
     import torch
     import pydrobert.torch.functional as F
     import pydrobert.torch.modules as M
 
     N = len(ref_cols)
-    ref = torch.tensor(ref_cols, dtype=torch.long).reshape(N, R)
-    hyp = torch.tensor(hyp_cols, dtype=torch.long).reshape(N, H)
     bf = case["batch_first"]
-    if not bf:
-        ref, hyp = ref.t().contiguous(), hyp.t().contiguous()
-    ins, dl, sb = (float(Fraction(case[k])) for k in ("ins", "del", "sub"))
-    with warnings.catch_warnings():
-        warnings.simplefilter("ignore")
-        if case["mode"] == "scalar":
-            if case["entry"] == "module":
-                out = M.EditDistance(case["eos"], case["include_eos"], case["norm"], bf, ins, dl, sb,
-                                     False)(ref, hyp)
-            else:
-                out = F.edit_distance(ref, hyp, case["eos"], case["include_eos"], case["norm"], bf,
-                                      ins, dl, sb, False)
+    dts = case.get("tok_dtype") or ["int64", "int64"]
+    lay = case.get("layout") or ["contig", "contig"]
+    garbage = garbage_tokens(case)
+    ref, ref_base = make_tensor(ref_cols, R, bf, dts[0], lay[0], garbage)
+    if case.get("alias") and ref_cols == hyp_cols and R == H:
+        hyp, hyp_base = ref, ref_base
+    else:
+        hyp, hyp_base = make_tensor(hyp_cols, H, bf, dts[1], lay[1], garbage)
+    keep = None if light else (ref_base.clone(), hyp_base.clone())
+    mode = case["mode"]
+    values = option_values(case)
+    extra = {}
+    with _DefaultDtype(case.get("default_dtype")), warnings.catch_warnings(record=True) as wlist:
+        warnings.simplefilter("always")
+        if case["entry"] == "module":
+            cls = M.EditDistance if mode == "scalar" else M.PrefixEditDistances
+            pos, kw = split_args(values, ORDER[mode], DOC_DEFAULTS[mode], case.get("ctor", "positional"))
+            mod = cls(*pos, **kw)
+            out = mod(ref, hyp)
+            if not light:
+                bad = []
+                rep = mod.extra_repr()
+                for k in ORDER[mode]:
+                    got = getattr(mod, k, "<missing>")
+                    want = values[k]
+                    if k.endswith("_cost"):
+                        ok = type(got) is float and got == float(want)
+                    elif k in ("eos", "padding"):
+                        ok = (got is None and want is None) or (type(got) is int and want is not None
+                                                                and got == int(want))
+                    else:
+                        ok = got is want
+                    if not ok:
+                        bad.append(f"{k}: attribute {got!r}, constructed with {want!r}")
+                    elif f"{k}={got}" not in rep.split(", "):
+                        bad.append(f"{k}={got} not in extra_repr() {rep!r}")
+                extra["module_attrs"] = bad
+                out2 = mod(ref, hyp)
+                extra["second_call_same"] = bool(out2.shape == out.shape and out2.dtype == out.dtype
+                                                 and torch.equal(out2, out))
         else:
-            if case["entry"] == "module":
-                out = M.PrefixEditDistances(case["eos"], case["include_eos"], case["norm"], bf, ins, dl,
-                                            sb, case["padding"], case["exclude_last"], False)(ref, hyp)
-            else:
-                out = F.prefix_edit_distances(ref, hyp, case["eos"], case["include_eos"], case["norm"],
-                                              bf, ins, dl, sb, case["padding"], case["exclude_last"],
-                                              False)
+            f = F.edit_distance if mode == "scalar" else F.prefix_edit_distances
+            pos, kw = split_args(values, ORDER[mode], DOC_DEFAULTS[mode], case.get("call", "positional"))
+            out = f(ref, hyp, *pos, **kw)
+    if not light:
+        kinds = set()
+        for w in wlist:
+            msg = str(w.message)
+            for needle, kind in WARN_KINDS:
+                if needle in msg:
+                    kinds.add(kind)
+        extra["warned"] = sorted(kinds)
+        extra["inputs_untouched"] = bool(torch.equal(ref_base, keep[0]) and torch.equal(hyp_base, keep[1]))
     shape = list(out.shape)
-    if case["mode"] == "scalar":
+    if mode == "scalar":
         vals = [frac_str(v) for v in out.tolist()]
     else:
         o = out if bf else out.t()
         vals = [[frac_str(v) for v in row] for row in o.tolist()]
         if N > 0 and len(vals) == 0:
             vals = [[] for _ in range(N)]
-    return {"shape": shape, "dtype": str(out.dtype), "vals": vals}
+    res = {"shape": shape, "dtype": str(out.dtype), "vals": vals}
+    if not light and mode == "prefix":
+        res["raw"] = [[frac_str(v) for v in row] for row in out.tolist()]  # the table as returned (native layout)
+    res.update(extra)
+    return res
+
+
+def pick_filler(toks, lo, hi):
+    """A token that does not occur in `toks` and fits the tensors' dtype."""
+    s = set(toks)
+    for cand in ((max(s) + 1) if s else 0, (min(s) - 1) if s else 0):
+        if lo <= cand <= hi and cand not in s:
+            return cand
+    for cand in range(max(lo, -300), min(hi, 300) + 1):
+        if cand not in s:
+            return cand
+    return None
 
 
 def repad(col, eos, filler, extra):
@@ -124,15 +303,32 @@ class C01(PropertyCheck):
             "Streams: exhaustive (all padded columns over {0,1,eos=2}, lengths <= 3 (quick: see "
             "`exhaustive_note`)), eos-position sweeps, random (N<=4, R,H<=6 quick / <=10 thorough, alphabet<=4, "
             "eos unset / in alphabet / absent, random filler after eos, costs from {1/4,1/2,1,3/2,2,3,4}^3), "
-            "zero-size dimensions, malformed calls. A column is non-trivial when both cut sequences are "
+            "zero-size dimensions (every option cell x both layouts x both entries, N in {0,1,2}), long (7..14 / 20) "
+            "and wide (N 16..48) batches, ref-is-hyp batches, malformed calls (both entries). Three quarters of the "
+            "batches are then handed over in a non-plain form drawn from: tokens renamed injectively to values "
+            "around 2^24 / 2^31 / 2^53 / the int64 limits / -100 / negatives; int32 / int16 / int8 / uint8 / mixed token "
+            "dtypes; transposed-view, strided-with-offset (inside a garbage-filled storage) and expanded (stride 0) "
+            "tensors; hyp the same tensor object as ref; warn on/off; positional / keyword / defaults-omitted / mixed "
+            "calls and constructors; python-int and numpy costs; padding from {-100,-1,0,1,7,-2^24,2^31+5, eos, a "
+            "token}; float64 default dtype. A column is non-trivial when both cut sequences are "
             "non-empty, the distance is > 0 and not all tokens are equal; distinct by "
             "(ref', hyp', costs, option cell) — counted per column in `distinct_nontrivial_pairs`, "
             "per batch in `distinct_nontrivial`.")
     assumptions = [
         "float32 arithmetic of the implementation is exact on the generated domain (dyadic costs, sizes <= 10); "
         "normalised results are compared with the correctly rounded float32 quotient of the exact value",
-        "the model is per column; that a column's result is untouched by the rest of the batch is checked by the "
-        "correspondence (whole batches vs per-column model) and by re-running every column alone / re-padded",
+        "two models: per column (what C01_pair etc. are about) and tensor-level (whole batch in the layout of the call; "
+        "C01_batch_* prove that its entry n is the per-column model on pair n); the library's raw tensor is compared "
+        "with the tensor-level model, its columns with the per-column model, and every column is also re-run alone / "
+        "re-padded on the real code",
+        "presentation options (call style, dtype, memory layout, warn, cost type, token renaming) must not change "
+        "any number: the model never sees them; omitted arguments rely on the defaults documented at the pinned "
+        "tree (edit_distance: include_eos=False; prefix_edit_distances: include_eos=True, padding=-100; costs 1.0; "
+        "norm / batch_first / exclude_last False; warn=True)",
+        "also checked on every non-re-run call: inputs (and the storage around a strided view) are not written to, "
+        "a module carries the options it was constructed with (attributes, extra_repr), a second call of the same "
+        "module gives the same tensor, and the library warnings are exactly the documented ones (none with "
+        "warn=False)",
         "norm with an empty reference (0/1 convention) is compared model-vs-implementation but is not part of the "
         "property predicate (the property text is silent; C02 covers the convention)",
     ]
@@ -170,7 +366,8 @@ class C01(PropertyCheck):
                             for costs in triples:
                                 flip += 1
                                 yield self._mk(mode, "module" if flip % 3 == 0 else "functional",
-                                               refs, hyps, R, H, 2, inc, norm, flip % 2 == 0, excl, costs)
+                                               refs, hyps, R, H, 2, inc, norm, flip % 2 == 0, excl, costs,
+                                               padding=PADDINGS[flip % len(PADDINGS)])
 
     def sweep_cases(self, rng, L):
         """eos at every position (0..L, L = absent) of ref x hyp, random filler after it."""
@@ -193,22 +390,29 @@ class C01(PropertyCheck):
                 for (mode, norm, excl) in self._opt_cells():
                     costs = self._costs(rng)
                     yield self._mk(mode, rng.choice(["functional", "module"]), refs, hyps, L, L, eos, inc,
-                                   norm, rng.random() < 0.5, excl, costs)
+                                   norm, rng.random() < 0.5, excl, costs, padding=rng.choice(PADDINGS))
 
     def _costs(self, rng):
         u = rng.random()
         if u < 0.25:
             c = rng.choice(COSTS)
-            return [c, c, c]
-        if u < 0.35:
+            t = [c, c, c]
+        elif u < 0.35:
             return ["1", "1", "1"]
-        return [rng.choice(COSTS) for _ in range(3)]
+        else:
+            t = [rng.choice(COSTS) for _ in range(3)]
+        if rng.random() < 0.12:
+            # the same triple in other units: a power-of-two scale keeps every float32 operation exact, and a
+            # finite stand-in for the +inf of del_mat (or any absolute threshold) would show
+            k = rng.choice(COST_SCALES)
+            t = [fs(Fraction(x) * Fraction(2) ** k) for x in t]
+        return t
 
-    def random_case(self, rng, maxlen, zero_bias=0.12):
-        N = rng.choice([1, 1, 2, 3, 4])
-        R = 0 if rng.random() < zero_bias else rng.randint(0, maxlen)
-        H = 0 if rng.random() < zero_bias else rng.randint(0, maxlen)
-        A = rng.randint(1, 4)
+    def random_case(self, rng, maxlen, zero_bias=0.12, minlen=0, N=None):
+        N = rng.choice([1, 1, 2, 3, 4]) if N is None else N
+        R = 0 if rng.random() < zero_bias else rng.randint(minlen, maxlen)
+        H = 0 if rng.random() < zero_bias else rng.randint(minlen, maxlen)
+        A = rng.choice([1, 2, 3, 4, 1, 2, 3, 4, 8, 50])
         base = rng.choice([0, 0, 0, 1, -2, 1000])
         alphabet = [base + i for i in range(A)]
         kind = rng.choice(["unset", "in", "in", "in", "absent"])
@@ -249,30 +453,103 @@ class C01(PropertyCheck):
             else:
                 hyps.append(col(H))
         mode = rng.choice(["scalar", "prefix"])
+        padding = rng.choice(PADDINGS)
+        u = rng.random()
+        if u < 0.12 and eos is not None:
+            padding = eos  # the filler value of the result coincides with the end-of-sequence token
+        elif u < 0.2:
+            padding = rng.choice(alphabet)
         return self._mk(mode, rng.choice(["functional", "module"]), refs, hyps, R, H, eos,
                         rng.random() < 0.5, rng.random() < 0.5, rng.random() < 0.5,
-                        mode == "prefix" and rng.random() < 0.5, self._costs(rng),
-                        padding=rng.choice([-100, -100, -1, 0, 7]))
+                        mode == "prefix" and rng.random() < 0.5, self._costs(rng), padding=padding)
+
+    # -- how the batch is handed over (never changes the expected numbers)
+    def relabel(self, rng, case):
+        """Rename the tokens (and the eos) injectively: the distance only depends on which tokens are
+        equal. Targets: consecutive values around representation limits, or a sample of the pool."""
+        toks = sorted({x for c in case["ref"] + case["hyp"] for x in c}
+                      | ({case["eos"]} if case["eos"] is not None else set()))
+        k = len(toks)
+        if k == 0:
+            return case
+        if rng.random() < 0.5 or k > len(TOKEN_POOL):
+            b = rng.choice(TOKEN_BASES)
+            b = min(b, 2 ** 63 - k)
+            new = list(range(b, b + k))
+        else:
+            new = rng.sample(TOKEN_POOL, k)
+        rng.shuffle(new)
+        m = dict(zip(toks, new))
+        c = dict(case)
+        c["ref"] = [[m[x] for x in col] for col in case["ref"]]
+        c["hyp"] = [[m[x] for x in col] for col in case["hyp"]]
+        if case["eos"] is not None:
+            c["eos"] = m[case["eos"]]
+        if case["mode"] == "prefix" and rng.random() < 0.25:
+            c["padding"] = rng.choice(new)
+        return c
+
+    def decorate(self, rng, case, p_plain=0.25):
+        """Pick the presentation options. With probability p_plain the plain form (positional call,
+        contiguous int64 tensors, float costs, warn=False) is kept."""
+        if case["kind"] != "batch" or rng.random() < p_plain:
+            return case
+        c = self.relabel(rng, case) if rng.random() < 0.4 else dict(case)
+        toks = [x for col in c["ref"] + c["hyp"] for x in col] + ([c["eos"]] if c["eos"] is not None else [])
+        fits = [d for d, (lo, hi) in DTYPE_RANGE.items() if all(lo <= x <= hi for x in toks)]
+        u = rng.random()
+        if u < 0.5 or fits == ["int64"]:
+            dts = ["int64", "int64"]
+        elif u < 0.8:
+            d = "int32" if "int32" in fits else "int64"
+            dts = [d, d]
+        elif u < 0.9:
+            d = rng.choice(fits)
+            dts = [d, d]
+        else:
+            dts = [rng.choice(fits), rng.choice(fits)]
+        c["tok_dtype"] = dts
+        c["layout"] = [rng.choice(["contig", "contig", "tview", "strided", "expand"]) for _ in range(2)]
+        c["warn"] = rng.random() < 0.4
+        c["call"] = rng.choice(STYLES)
+        c["ctor"] = rng.choice(STYLES)
+        integral = all(Fraction(c[k]).denominator == 1 and Fraction(c[k]) < 2 ** 31 for k in ("ins", "del", "sub"))
+        c["cost_type"] = rng.choice(["float", "int" if integral else "float", "numpy" if c["entry"] == "module" else "float"])
+        if c["R"] == c["H"] and c["ref"] == c["hyp"] and rng.random() < 0.7:
+            c["alias"] = True
+        if rng.random() < 0.05:
+            c["default_dtype"] = "float64"
+        return c
+
+    def alias_case(self, rng, maxlen):
+        """ref and hyp are the same batch (distance 0 everywhere): handed over as ONE tensor object."""
+        c = self.random_case(rng, maxlen, zero_bias=0.05)
+        c["hyp"] = [list(col) for col in c["ref"]]
+        c["H"] = c["R"]
+        return c
 
     def zero_cases(self, rng):
-        """Zero-size dimensions in every option cell (the design-phase defect lives here)."""
-        for (R, H) in ((0, 0), (0, 2), (2, 0), (0, 1), (1, 0)):
+        """Zero-size dimensions in every option cell, both layouts, both entries, N in {0, 1, 2}
+        (the design-phase defect lives here; N = 0 is outside the property's N >= 1 and only has to
+        agree with the model: nothing to report, right shape)."""
+        for (R, H) in ((0, 0), (0, 2), (2, 0), (0, 1), (1, 0), (2, 3)):
             for eos in (None, 1):
                 for inc in (False, True):
                     for (mode, norm, excl) in self._opt_cells():
-                        N = rng.choice([1, 2])
-                        refs = [[rng.choice([0, 1]) for _ in range(R)] for _ in range(N)]
-                        hyps = [[rng.choice([0, 1]) for _ in range(H)] for _ in range(N)]
-                        yield self._mk(mode, rng.choice(["functional", "module"]), refs, hyps, R, H, eos,
-                                       inc, norm, rng.random() < 0.5, excl, self._costs(rng))
-        # an empty batch (outside N >= 1; only has to agree with the model: nothing to report)
-        yield self._mk("scalar", "functional", [], [], 2, 3, 1, False, False, False, False, ["1", "1", "1"])
-        yield self._mk("prefix", "functional", [], [], 2, 3, None, True, False, True, False, ["1", "2", "3"])
+                        for bf in (False, True):
+                            for entry in ("functional", "module"):
+                                N = rng.choice([0, 1, 2]) if 0 in (R, H) else 0
+                                refs = [[rng.choice([0, 1]) for _ in range(R)] for _ in range(N)]
+                                hyps = [[rng.choice([0, 1]) for _ in range(H)] for _ in range(N)]
+                                yield self._mk(mode, entry, refs, hyps, R, H, eos, inc, norm, bf, excl,
+                                               self._costs(rng), padding=rng.choice(PADDINGS))
 
     def malformed_cases(self):
-        for what in ("ref_1d", "hyp_3d", "batch_mismatch", "batch_mismatch_bf"):
+        for what in ("ref_1d", "hyp_3d", "batch_mismatch", "batch_mismatch_bf", "ref_0d", "ref_3d", "hyp_1d",
+                     "batch_mismatch_empty"):
             for mode in ("scalar", "prefix"):
-                yield {"kind": "malformed", "what": what, "mode": mode}
+                for entry in ("functional", "module"):
+                    yield {"kind": "malformed", "what": what, "mode": mode, "entry": entry}
 
     def cases(self, rng, tier):
         if tier == "quick":
@@ -284,9 +561,27 @@ class C01(PropertyCheck):
         else:  # search
             triples = [["1", "1", "1"], ["2", "2", "2"], ["1/2", "1", "3/2"], ["3", "1/4", "2"], ["1", "4", "1/2"]]
             n_random, maxlen, exh_len = 30000, 10, 3
+        n_long, n_wide, n_alias = {"quick": (40, 12, 40), "thorough": (600, 100, 400)}.get(tier, (900, 150, 600))
         yield from self.malformed_cases()
+        for c in self._stream(rng, tier, triples, n_random, maxlen, exh_len, n_long, n_wide, n_alias):
+            yield self.decorate(rng, c)
+
+    def _stream(self, rng, tier, triples, n_random, maxlen, exh_len, n_long, n_wide, n_alias):
         yield from self.zero_cases(rng)
         yield from self.sweep_cases(rng, 4 if tier == "quick" else 6)
+        for _ in range(n_alias):
+            yield self.alias_case(rng, maxlen)
+        # longer sequences than the rest of the stream (oracle: dpDist, proved equal to lev)
+        for _ in range(n_long):
+            yield self.random_case(rng, 14 if tier == "quick" else 20, zero_bias=0.0, minlen=7,
+                                   N=rng.choice([1, 2, 3]))
+        for _ in range(max(3, n_long // 12)):
+            yield self.random_case(rng, 60 if tier == "quick" else 100, zero_bias=0.0, minlen=25, N=rng.choice([1, 2]))
+        # wide batches of short sequences
+        for _ in range(n_wide):
+            yield self.random_case(rng, 4, N=rng.randint(16, 48))
+        for _ in range(max(2, n_wide // 10)):
+            yield self.random_case(rng, 3, N=rng.randint(130, 300))
         # interleave so that a time budget cuts both streams evenly
         exh = self.exhaustive_cases(rng, exh_len, triples)
         if tier == "quick":
@@ -312,7 +607,8 @@ class C01(PropertyCheck):
                 mode, norm, excl = cells[flip % len(cells)]
                 costs = [["1", "1", "1"], ["1/2", "1", "3/2"], ["3", "1/4", "2"]][flip % 3]
                 yield self._mk(mode, "module" if flip % 4 == 0 else "functional", [list(r)] * len(hyps), hyps,
-                               R, H, 2, flip % 2 == 0, norm, flip % 5 < 2, excl, costs)
+                               R, H, 2, flip % 2 == 0, norm, flip % 5 < 2, excl, costs,
+                               padding=PADDINGS[flip % len(PADDINGS)])
 
     # ------------------------------------------------------------------ implementation
     def run_impl(self, case):
@@ -323,19 +619,23 @@ class C01(PropertyCheck):
         # batch independence: every column alone, and alone under another padding
         alone, repadded = [], []
         eos = case["eos"]
+        dts = case.get("tok_dtype") or ["int64", "int64"]
+        lo = max(DTYPE_RANGE[d][0] for d in dts)
+        hi = min(DTYPE_RANGE[d][1] for d in dts)
         if len(case["ref"]) > 1 or eos is not None:
             for r, h in zip(case["ref"], case["hyp"]):
-                alone.append(call_impl(case, [r], [h], R, H)["vals"][0])
+                alone.append(call_impl(case, [r], [h], R, H, light=True)["vals"][0])
                 toks = r + h + ([eos] if eos is not None else [])
-                filler = max(toks, default=0) + 1
-                r2, h2 = repad(r, eos, filler, 2), repad(h, eos, eos if eos is not None else 0, 1)
+                filler = pick_filler(toks, lo, hi)
+                r2 = repad(r, eos, filler, 2) if filler is not None else None
+                h2 = repad(h, eos, eos if eos is not None else 0, 1)
                 if r2 is None and h2 is None:
                     repadded.append(None)
                 else:
                     r2 = r if r2 is None else r2
                     h2 = h if h2 is None else h2
                     repadded.append({"H": len(h2),
-                                     "vals": call_impl(case, [r2], [h2], len(r2), len(h2))["vals"][0]})
+                                     "vals": call_impl(case, [r2], [h2], len(r2), len(h2), light=True)["vals"][0]})
         out["alone"] = alone
         out["repadded"] = repadded
         return out
@@ -343,29 +643,49 @@ class C01(PropertyCheck):
     def _run_malformed(self, case):
         import torch
         import pydrobert.torch.functional as F
-        f = F.edit_distance if case["mode"] == "scalar" else F.prefix_edit_distances
-        z = lambda *s: torch.zeros(s, dtype=torch.long)
+        import pydrobert.torch.modules as M
+        scalar = case["mode"] == "scalar"
         w = case["what"]
+        bf = w == "batch_mismatch_bf"
+        if case.get("entry", "functional") == "module":
+            mod = (M.EditDistance if scalar else M.PrefixEditDistances)(batch_first=bf)
+            f = lambda r, h: mod(r, h)
+        else:
+            fn = F.edit_distance if scalar else F.prefix_edit_distances
+            f = lambda r, h: fn(r, h, batch_first=bf)
+        z = lambda *s: torch.zeros(s, dtype=torch.long)
         with warnings.catch_warnings():
             warnings.simplefilter("ignore")
             if w == "ref_1d":
                 f(z(3), z(3, 1))
             elif w == "hyp_3d":
                 f(z(3, 1), z(3, 1, 1))
-            elif w == "batch_mismatch":
-                f(z(3, 2), z(3, 3))
+            elif w in MALFORMED_2D:
+                f(z(*MALFORMED_2D[w][0]), z(*MALFORMED_2D[w][1]))
+            elif w == "ref_0d":
+                f(z(), z(3, 1))
+            elif w == "ref_3d":
+                f(z(3, 1, 1), z(3, 1))
+            elif w == "hyp_1d":
+                f(z(3, 1), z(3))
             else:
-                f(z(2, 3), z(3, 3), batch_first=True)
+                raise ValueError(w)
         return {"returned": True}
 
     def model_request(self, case):
         if case["kind"] == "malformed":
-            return None
+            sh = MALFORMED_2D.get(case["what"])
+            if sh is None:
+                return None  # not 2-D: outside what the tensor-level model can express
+            return {"op": "c01.shapes", "case": {"ref_shape": sh[0], "hyp_shape": sh[1],
+                                                 "batch_first": case["what"] == "batch_mismatch_bf",
+                                                 "mode": case["mode"]}}
         return {"op": "c01.batch", "case": {
             "cols": [{"ref": r, "hyp": h} for r, h in zip(case["ref"], case["hyp"])],
             "eos": case["eos"], "include_eos": case["include_eos"], "norm": case["norm"],
             "exclude_last": case["exclude_last"], "padding": case["padding"],
-            "ins": case["ins"], "del": case["del"], "sub": case["sub"], "mode": case["mode"]}}
+            "ins": case["ins"], "del": case["del"], "sub": case["sub"], "mode": case["mode"],
+            "R": case["R"], "H": case["H"], "batch_first": case["batch_first"]}}
 
     # ------------------------------------------------------------------ comparison
     def _expected_shape(self, case):
@@ -376,6 +696,9 @@ class C01(PropertyCheck):
 
     def compare(self, case, impl, model):
         if case["kind"] == "malformed":
+            if model is not None and model.get("raises") != (impl.get("error") == "RuntimeError"):
+                return [f"malformed {case['what']}: tensor-level model raises={model.get('raises')}, "
+                        f"implementation: {impl.get('error', 'returned')}"]
             return []
         if "error" in impl:
             return [f"implementation raised {impl['error']}: {impl.get('message')}"]
@@ -396,6 +719,19 @@ class C01(PropertyCheck):
                     out.append(f"col {n}: impl={iv} model={mv} (float32: {want})")
         if len(impl["vals"]) != len(model["cols"]):
             out.append("number of columns differs")
+        # the tensor-level model (whole batch, the layout of the call) against the tensor as returned
+        tm = model.get("tensor")
+        if tm is not None:
+            if impl["shape"] != tm["shape"]:
+                out.append(f"shape impl={impl['shape']} tensor-level model={tm['shape']}")
+            if case["mode"] == "scalar":
+                want = [fs(f32round(Fraction(v))) for v in tm["vals"]]
+                if impl["vals"] != want:
+                    out.append(f"tensor-level model: impl={impl['vals']} model={tm['vals']}")
+            else:
+                want = [[fs(f32round(Fraction(v))) for v in row] for row in tm["vals"]]
+                if impl.get("raw") != want:
+                    out.append(f"tensor-level model (native layout): impl={impl.get('raw')} model={tm['vals']}")
         return out
 
     def _expect_col(self, case, spec):
@@ -407,17 +743,18 @@ class C01(PropertyCheck):
         if case["mode"] == "scalar":
             return fs(nrm(Fraction(spec["lev"])))
         valid = hl + (0 if case["exclude_last"] else 1)
-        return [fs(nrm(Fraction(spec["prefix_lev"][k]))) if k < valid else fs(case["padding"])
+        return [fs(nrm(Fraction(spec["prefix_lev"][k]))) if k < valid else fs(f32round(case["padding"]))
                 for k in range(n_rows(case))]
 
     def predicate(self, case, impl, model):
         if case["kind"] == "malformed":
             if impl.get("error") != "RuntimeError":
-                return [(f"malformed call ({case['what']}) did not raise RuntimeError: {impl}", None)]
+                return [(f"malformed call ({case['what']}) did not raise RuntimeError: {impl}", "C01.malformed_no_error")]
             return []
         if "error" in impl:
-            sig = None
-            if impl["error"] == "RuntimeError" and case["eos"] is not None and 0 in (case["R"], case["H"]):
+            sig = "C01.raises"
+            if (impl["error"] == "RuntimeError" and case["eos"] is not None and 0 in (case["R"], case["H"])
+                    and "non-zero size" in str(impl.get("message"))):
                 sig = SIG_LENS
             elif (impl["error"] == "IndexError" and case["mode"] == "prefix" and case["exclude_last"]
                   and case["H"] == 0):
@@ -426,28 +763,28 @@ class C01(PropertyCheck):
                      f"(R={case['R']}, H={case['H']}, eos={case['eos']}): {impl.get('message')}", sig)]
         fails = []
         if impl["shape"] != self._expected_shape(case):
-            fails.append((f"result shape {impl['shape']}, expected {self._expected_shape(case)}", None))
+            fails.append((f"result shape {impl['shape']}, expected {self._expected_shape(case)}", "C01.shape"))
         if model is None:
-            return fails
+            return fails + self._presentation_failures(case, impl, model)
         for n, (iv, mc) in enumerate(zip(impl["vals"], model["cols"])):
             spec = mc["spec"]
             want = self._expect_col(case, spec)
             if want is not None and iv != want:
                 fails.append((f"column {n}: ref'={spec['ref_cut']} hyp'={spec['hyp_cut']} costs="
                               f"({case['ins']},{case['del']},{case['sub']}): reported {iv}, weighted Levenshtein "
-                              f"{'per prefix ' if case['mode'] == 'prefix' else ''}says {want}", None))
+                              f"{'per prefix ' if case['mode'] == 'prefix' else ''}says {want}", "C01.value"))
             # batch / padding independence
             if impl["alone"]:
                 if impl["alone"][n] != iv:
                     fails.append((f"column {n}: value inside the batch {iv} differs from the same pair alone "
-                                  f"{impl['alone'][n]}", None))
+                                  f"{impl['alone'][n]}", "C01.batch_dependence"))
                 rp = impl["repadded"][n]
                 if rp is not None:
                     if case["mode"] == "scalar":
                         same = rp["vals"] == iv
                     else:
                         valid = len(spec["hyp_cut"]) + (0 if case["exclude_last"] else 1)
-                        pad = fs(case["padding"])
+                        pad = fs(f32round(case["padding"]))
                         a, b = rp["vals"], iv
                         m = min(valid, len(a), len(b))
                         same = (a[:m] == b[:m] and all(x == pad for x in a[valid:])
@@ -455,7 +792,36 @@ class C01(PropertyCheck):
                                 and len(a) == rp["H"] + (0 if case["exclude_last"] else 1))
                     if not same:
                         fails.append((f"column {n}: value {iv} changes to {rp['vals']} when only the padding after "
-                                      f"the end-of-sequence token changes", None))
+                                      f"the end-of-sequence token changes", "C01.garbage_dependence"))
+        return fails + self._presentation_failures(case, impl, model)
+
+    def _expected_warnings(self, case):
+        """The documented warnings (docstring of `warn`, items 2 and 3) for this batch."""
+        if not case.get("warn", False) or not case["ref"]:
+            return []
+        eos, inc = case["eos"], case["include_eos"]
+        out = set()
+        if eos is not None and inc:
+            if any(eos not in r for r in case["ref"]):
+                out.add("no_eos_ref")
+            if any(eos not in h for h in case["hyp"]):
+                out.add("no_eos_hyp")
+        if case["norm"] and any(seq_len(r, eos, inc) == 0 for r in case["ref"]):
+            out.add("empty_ref")
+        return sorted(out)
+
+    def _presentation_failures(self, case, impl, model):
+        fails = []
+        if impl.get("inputs_untouched") is False:
+            fails.append(("the call wrote into its input tensors (or into the storage around the view it was "
+                          "given)", "C01.inputs_written"))
+        if impl.get("second_call_same") is False:
+            fails.append(("a second call of the same module object on the same batch gave another result", "C01.module_state"))
+        for b in impl.get("module_attrs") or []:
+            fails.append((f"module does not carry the option it was constructed with: {b}", "C01.module_attrs"))
+        if "warned" in impl and impl["warned"] != self._expected_warnings(case):
+            fails.append((f"warn={case.get('warn', False)}: library warnings {impl['warned']}, documented for this "
+                          f"batch: {self._expected_warnings(case)}", "C01.warnings"))
         return fails
 
     # ------------------------------------------------------------------ evidence
@@ -478,7 +844,7 @@ class C01(PropertyCheck):
 
     def tags(self, case, impl):
         if case["kind"] == "malformed":
-            return ["malformed:" + case["what"]]
+            return ["malformed:" + case["what"], "malformed_entry=" + case.get("entry", "functional")]
         t = [f"mode={case['mode']}", f"entry={case['entry']}", f"include_eos={case['include_eos']}",
              f"norm={case['norm']}", f"batch_first={case['batch_first']}",
              f"exclude_last={case['exclude_last']}", f"N={min(len(case['ref']), 5)}{'+' if len(case['ref']) > 5 else ''}"]
@@ -487,6 +853,11 @@ class C01(PropertyCheck):
         t.append("eos=" + ("unset" if eos is None else ("in_data" if eos in toks else "absent")))
         uni = case["ins"] == case["del"] == case["sub"]
         t.append("costs=" + ("unit" if uni and case["ins"] == "1" else "uniform_shortcut" if uni else "nonuniform"))
+        mag = max(Fraction(case[k]) for k in ("ins", "del", "sub"))
+        if mag >= 2 ** 20:
+            t.append("costs_scaled_up")
+        elif mag <= Fraction(1, 2 ** 10):
+            t.append("costs_scaled_down")
         if case["R"] == 0:
             t.append("R=0")
         if case["H"] == 0:
@@ -503,6 +874,50 @@ class C01(PropertyCheck):
             t.append("empty_ref'")
         if any(not hc for _, hc in self._cols_info(case)):
             t.append("empty_hyp'")
+        # presentation options
+        t.append(f"warn={case.get('warn', False)}")
+        if case["entry"] == "functional":
+            t.append("call=" + case.get("call", "positional"))
+        else:
+            t.append("ctor=" + case.get("ctor", "positional"))
+        t.append("cost_type=" + case.get("cost_type", "float"))
+        dts = case.get("tok_dtype") or ["int64", "int64"]
+        t.append("tok_dtype=" + (dts[0] if dts[0] == dts[1] else "mixed"))
+        lay = case.get("layout") or ["contig", "contig"]
+        for which, l, cols in (("ref", lay[0], case["ref"]), ("hyp", lay[1], case["hyp"])):
+            if l == "expand" and not (cols and all(c == cols[0] for c in cols)):
+                l = "contig"
+            t.append(f"layout_{which}={l}")
+        if case.get("alias") and case["R"] == case["H"] and case["ref"] == case["hyp"]:
+            t.append("alias_same_tensor")
+        if case.get("default_dtype"):
+            t.append("default_dtype=" + case["default_dtype"])
+        if case["mode"] == "prefix":
+            pd = case["padding"]
+            t.append("padding=" + ("-100" if pd == -100 else "eos" if pd == eos else "a_token" if pd in toks
+                                   else "beyond_float32" if abs(pd) > 2 ** 24 else "other"))
+        if eos is not None:
+            t.append("eos_value=" + ("0" if eos == 0 else "negative" if eos < 0 else "positive"))
+        if any(abs(x) >= 2 ** 24 for x in toks):
+            t.append("tokens_beyond_2^24")
+        if any(abs(x) >= 2 ** 53 for x in toks):
+            t.append("tokens_beyond_2^53")
+        if -100 in toks:
+            t.append("token_equals_INDEX_PAD_VALUE")
+        if len(set(toks)) > 8:
+            t.append("alphabet>8")
+        if max(case["R"], case["H"]) > 6:
+            t.append("len>6")
+        if max(case["R"], case["H"]) > 10:
+            t.append("len>10")
+        if len(case["ref"]) >= 16:
+            t.append("N>=16")
+        if len(case["ref"]) >= 128:
+            t.append("N>=128")
+        if max(case["R"], case["H"]) > 24:
+            t.append("len>24")
+        if impl and impl.get("warned"):
+            t += ["warned:" + k for k in impl["warned"]]
         cell = (case["mode"], case["include_eos"], case["norm"], case["exclude_last"], case["ins"], case["del"],
                 case["sub"])
         for rc, hc in self._cols_info(case):
@@ -550,7 +965,23 @@ class C01(PropertyCheck):
                 yield dict(case, **{k: "1"})
         if case["padding"] != -100:
             yield dict(case, padding=-100)
-        toks = sorted({x for col in case["ref"] + case["hyp"] for x in col})
+        # presentation options back to the plain form, one at a time
+        for k, plain in (("warn", False), ("call", "positional"), ("ctor", "positional"), ("cost_type", "float"),
+                         ("tok_dtype", ["int64", "int64"]), ("layout", ["contig", "contig"]), ("alias", False),
+                         ("default_dtype", None)):
+            if k in case and case[k] != plain:
+                yield dict(case, **{k: plain})
+        toks = sorted({x for col in case["ref"] + case["hyp"] for x in col}
+                      | ({case["eos"]} if case["eos"] is not None else set()))
+        if toks and toks != list(range(len(toks))):
+            # rename the tokens to 0..k-1
+            m = {x: i for i, x in enumerate(toks)}
+            c = dict(case)
+            c["ref"] = [[m[x] for x in col] for col in case["ref"]]
+            c["hyp"] = [[m[x] for x in col] for col in case["hyp"]]
+            if case["eos"] is not None:
+                c["eos"] = m[case["eos"]]
+            yield c
         for key in ("ref", "hyp"):
             for n, col in enumerate(case[key]):
                 for i, x in enumerate(col):
